@@ -1,16 +1,19 @@
 #!/bin/bash
 # tools/try_mutant.sh <patch.diff> <Cxx> [<Cyy> ...]
-# Applies a seeded change to /repo's working tree, runs the given checks (quick tier), restores /repo.
-# Prints one line per check: property, exit status, VIOLATION lines.
+# Applies a seeded change to a scratch worktree of /repo's HEAD (never to /repo itself), runs the given checks
+# (quick tier) against it via VERIF_REPO, removes the worktree. Evidence of these runs goes to a scratch directory.
 set -u
-patch="$1"; shift
+patch="$(realpath "$1")"; shift
 cd /verif
-if ! git -C /repo diff --quiet; then echo "/repo has uncommitted changes; refusing" >&2; exit 2; fi
-git -C /repo apply "$patch" || { echo "patch does not apply" >&2; exit 2; }
-trap 'git -C /repo checkout -- . ; git -C /repo clean -fdq -- bobocep' EXIT
+wt=$(mktemp -d /tmp/mutwt.XXXXXX); rmdir "$wt"
+git -C /repo worktree add --detach "$wt" HEAD -q || exit 2
+trap 'git -C /repo worktree remove --force "$wt" >/dev/null 2>&1; git -C /repo worktree prune' EXIT
+git -C "$wt" apply "$patch" || { echo "patch does not apply" >&2; exit 2; }
+export VERIF_REPO="$wt" VERIF_EVID=/tmp/verif_evid_scratch_$$; mkdir -p $VERIF_EVID
 for p in "$@"; do
   out=$(./check "$p" 2>&1); rc=$?
   echo "== $p exit=$rc"
-  echo "$out" | grep -E "^(VIOLATION|KNOWN-FINDING)" | cut -c1-260
-  echo "$out" | tail -1 | cut -c1-260
+  echo "$out" | grep -E "^(VIOLATION|KNOWN-FINDING)" | cut -c1-200
+  echo "$out" | tail -1 | cut -c1-220
 done
+rm -rf $VERIF_EVID
